@@ -63,7 +63,7 @@ def check_case(acc, case, unit):
         acc.shape((case.root, tuple((e[2], e[3] if e[3] == "..." else len(e)) for e in r.events)))
         reencode(acc, case.root, case.b, r, d, "strict")
     # warn mode, value-corrupted variants of the shallow encodings
-    ndev = sum(1 for c in case.choices if c)
+    ndev = case.ndev
     if ndev > (0 if unit["tier"] == "quick" else 1):
         return
     from ..ref.decode import decode
